@@ -15,6 +15,23 @@ static bstr *c18_bstr(size_t n, const unsigned char *a) {
   return b;
 }
 
+/* Lists and tables of the harness state are built FIELD BY FIELD on the object itself, never through the library's
+ * init functions: a write through a pointer to the embedded list (htp_list_array_init(&t->list, n)) defeats symex's constant
+ * propagation, the next push then explores the growth path with symbolic sizes and the encoding explodes (16 GB).
+ * CAP must be a constant.  The layout is exactly what htp_table_create / htp_list_array_init produce. */
+#define C18_MK_LIST_FIELDS(l, CAP) ((l).first = 0, (l).last = 0, (l).current_size = 0, (l).max_size = (CAP))
+#define C18_MK_TABLE(t, CAP) do { (t) = malloc(sizeof(htp_table_t)); if ((t) != NULL) { \
+    (t)->list.elements = malloc((CAP) * sizeof(void *)); \
+    if ((t)->list.elements == NULL) { free(t); (t) = NULL; } \
+    else { C18_MK_LIST_FIELDS((t)->list, (CAP)); (t)->alloc_type = HTP_TABLE_KEYS_ALLOC_UKNOWN; } } } while (0)
+#define C18_MK_LIST(l, CAP) do { (l) = malloc(sizeof(htp_list_array_t)); if ((l) != NULL) { \
+    (l)->elements = malloc((CAP) * sizeof(void *)); \
+    if ((l)->elements == NULL) { free(l); (l) = NULL; } else C18_MK_LIST_FIELDS(*(l), (CAP)); } } while (0)
+/* append one (key, element) pair the way _htp_table_add does (no growth: the caller keeps within CAP) */
+#define C18_TABLE_PUT(t, key, el, MODE) do { (t)->list.elements[(t)->list.last] = (void *) (key); (t)->list.elements[(t)->list.last + 1] = (void *) (el); \
+    (t)->list.last += 2; (t)->list.current_size += 2; (t)->alloc_type = (MODE); } while (0)
+#define C18_LIST_PUT(l, el) do { (l)->elements[(l)->last] = (void *) (el); (l)->last += 1; (l)->current_size += 1; } while (0)
+
 /* CBMC 6.11 ships no memchr model ("no body for callee memchr") */
 #if defined(C18_MEMCHR_MODEL) && !defined(VNATIVE)
 void *memchr(const void *s, int c, size_t n) {
